@@ -104,9 +104,16 @@ def render_one(rname, s, b1, b2, b3, L, depth):
     return True
 
 
+def default_opts(b1, b2, b3, unknown):
+    """job parameter opts='default' pins the renderer options to their defaults (quick tier); otherwise they are symbolic"""
+    if P('opts', 'symbolic') != 'default':
+        return True
+    return (not b1) and (not b2) and b3 and (not unknown)
+
+
 def _t1_quick():
     out = [{'k': 1, 'sigma': True, 'r': r} for r in RENDERERS]
-    out += [{'k': 2, 'sigma': False, 'r': r, 'c1': c} for r in ('Html', 'Markdown', 'XWiki20', 'Ast') for c in '>-']
+    out += [{'k': 2, 'sigma': False, 'r': r, 'c1': c, 'opts': 'default'} for r in ('Html', 'Markdown', 'XWiki20', 'Ast') for c in '>-']
     return out
 
 
@@ -125,7 +132,7 @@ def _t1_thorough():
 def t1_pipeline(c1: int, c2: int, c3: int, b1: bool, b2: bool, b3: bool, L: int, depth: int, unknown: bool) -> bool:
     """
     pre: (all_ok(cp_ok, P('k'), c1, c2, c3) if P('sigma') else all_in(ALPH14, P('k'), c1, c2, c3)) and fixed(c1, 'c1')
-    pre: L >= 1 and (P('r') != 'Ast' or not P('sigma'))
+    pre: L >= 1 and (P('r') != 'Ast' or not P('sigma')) and default_opts(b1, b2, b3, unknown)
     post: _
     """
     install_quote()
@@ -153,7 +160,7 @@ def no_nl(k, *cps):
     return True
 
 
-@lemma('T2.progress', 'C01', quick=[{'reader': r, 'k': k} for r in READERS for k in (1, 2)] + [{'reader': r, 'k': 3} for r in ('BlockCode', 'Quote', 'List', 'Paragraph', 'Footnote')],
+@lemma('T2.progress', 'C01', quick=[{'reader': r, 'k': k} for r in READERS for k in (1, 2)] + [{'reader': r, 'k': 3} for r in ('BlockCode', 'Quote', 'List', 'Footnote')],
        thorough=[{'reader': r, 'k': k} for r in READERS for k in (1, 2, 3, 4)], timeout=600, per_path=90,
        covers=['block_tokenizer.py:tokenize_block', 'block_tokenizer.py:FileWrapper.backstep', 'block_token.py:Quote.read',
                'block_token.py:Paragraph.read', 'block_token.py:ListItem.read', 'block_token.py:BlockCode.read', 'block_token.py:Footnote.read'],
@@ -189,7 +196,7 @@ def t2_progress(c1: int, c2: int, c3: int, c4: int, pos: int) -> bool:
     return before < fw._index <= len(lines) - 1
 
 
-@lemma('T2.dispatch', 'C01', quick=[{'k': 1}, {'k': 2}], timeout=600, per_path=90,
+@lemma('T2.dispatch', 'C01', quick=[{'k': 1}], thorough=[{'k': 1}, {'k': 2, 'timeout': 3000}], timeout=600, per_path=90,
        covers=['block_tokenizer.py:tokenize_block'],
        note="the dispatch loop itself: with token types whose start() is never true the 'unmatched newline' branch consumes exactly one line per iteration; with the real token types every line of a 3-line buffer (middle line symbolic) is consumed exactly once")
 def t2_dispatch(c1: int, c2: int, n: int) -> bool:
@@ -240,14 +247,14 @@ SKELETONS = {
 }
 
 
-@lemma('T3.constructs', 'C01', quick=[{'sk': s, 'r': r} for s in ('empty-quote', 'empty-item', 'image-alt') for r in ('Html', 'Markdown', 'LaTeX', 'Jira', 'XWiki20')],
+@lemma('T3.constructs', 'C01', quick=[{'sk': s, 'r': r, 'opts': 'default'} for s in ('empty-quote', 'empty-item', 'image-alt') for r in ('Html', 'Markdown', 'LaTeX', 'Jira', 'XWiki20')],
        thorough=[{'sk': s, 'r': r, 'timeout': 3000} for s in sorted(SKELETONS) for r in RENDERERS_FINITE], timeout=900, per_path=150,
        stubs=['urllib.parse.quote -> contract stub', 'pygments -> stubs'],
        covers=['block_token.py:Document.__init__', 'base_renderer.py:BaseRenderer.render'],
        note='one skeleton per block / inline construct with a hole filled by ONE symbolic character over Σ (or nothing); one bundled renderer per job')
 def t3_constructs(c1: int, has: bool, b1: bool, b2: bool, b3: bool, L: int, depth: int, unknown: bool) -> bool:
     """
-    pre: (cp_in(c1, ALPH14) if P('r') == 'Ast' else cp_ok(c1)) and L >= 1
+    pre: (cp_in(c1, ALPH14) if P('r') == 'Ast' else cp_ok(c1)) and L >= 1 and default_opts(b1, b2, b3, unknown)
     post: _
     """
     install_quote()
